@@ -98,9 +98,9 @@ Proof.
   rewrite Hs in Hs'. inversion Hs'; subst. auto.
 Qed.
 
-Lemma w_entry fuel s ev k : pres (wk mc) (exec_entry cf contained mc children fuel s ev k).
+Lemma w_entry fwd fuel s ev k : pres (wk mc) (exec_entry_gen cf contained mc children fwd fuel s ev k).
 Proof.
-  pose proof (wk_stable mc) as HS. unfold exec_entry. destruct (child children s) as [co|] eqn:E.
+  pose proof (wk_stable mc) as HS. unfold exec_entry_gen. destruct (child children s) as [co|] eqn:E.
   - assert (B : pres (wk mc) (in_child contained mc s tt (co_entry_pre co ev k);;
                               cb_at mc [s] KMEntry 0 ev match k with EkPlain => false | _ => true end;;
                               in_child contained mc s tt (co_entry_post co fuel ev k))).
@@ -110,7 +110,7 @@ Proof.
     destruct (entry_throw_resets cf); [|exact B].
     apply pres_on_throw; [exact B|]. eapply wl; eauto. intros c _. apply pres_set_proc_false.
   - destruct (s_kind (get_state mc s)); try (apply p_cb; auto).
-    apply pres_bind; [apply p_cb; auto | intros _; destruct (negb (Nat.eqb (e_ty ev) EV_NONE)); [apply pres_push_up | apply pres_ret]].
+    apply pres_bind; [apply p_cb; auto | intros _; destruct (fwd && negb (Nat.eqb (e_ty ev) EV_NONE)); [apply pres_push_up | apply pres_ret]].
 Qed.
 
 Let Wpei : forall s co fuel ev src, child children s = Some co -> pres (wk mc) (lift_child s 0 (co_pei co fuel ev src)).
